@@ -7,19 +7,42 @@ use crate::common::{CheckResult, Ctx, Fail, Obs};
 use serde_json::{json, Value as J};
 
 pub const K_MUTUAL: &str = "C01-mutual-recursion";
+pub const K_AGG_ORDER: &str = "C01-agg-head-order";
+pub const K_JP_REPEATED: &str = "C01-joinplan-repeated-var";
 
 /// Signature of a known finding for a failing case (narrow: feature + failure kind).
-pub fn classify(f: &Features, kind: &str) -> Option<&'static str> {
-    if f.mutual_recursion && (kind == "missing_tuples" || kind == "engine_rejected_valid") {
+pub fn classify(case: &Case, f: &Features, kind: &str, expected: &std::collections::BTreeSet<crate::common::prog::KRow>) -> Option<&'static str> {
+    if f.mutual_recursion && (kind == "missing_tuples" || kind == "extra_tuples") {
         return Some(K_MUTUAL);
+    }
+    if f.agg_not_last && (kind == "missing_tuples" || kind == "extra_tuples") {
+        return Some(K_AGG_ORDER);
+    }
+    let wrong = kind == "missing_tuples" || kind == "extra_tuples";
+    if wrong && f.repeated_var_in_atom && f.join {
+        // differential part of the signature: correct as soon as join planning is off
+        let off = RunCfg { mask: eng::OPT_DEFAULT & !1, ..RunCfg::default() };
+        if let Ok(t) = run_iql(case, &off) {
+            if key_set(&t).ok().as_ref() == Some(expected) {
+                return Some(K_JP_REPEATED);
+            }
+        }
     }
     None
 }
 
-pub fn check_engine(case: &Case, obs: &mut Obs) -> CheckResult {
+/// `replaying`: judge the case even if it falls into a class the generator is steered away from
+/// (used for witnesses and replay files).
+pub fn check_engine(ctx: &Ctx, case: &Case, obs: &mut Obs, replaying: bool) -> CheckResult {
     let f = features(&case.prog);
     for c in f.classes() {
         obs.class(c);
+    }
+    if f.mutual_recursion && !replaying && ctx.is_open_known(K_MUTUAL) {
+        // every consumer of a mutually recursive relation inherits the known defect (missing
+        // tuples, or extra ones below a negation): excluded by construction while it is open
+        obs.excluded_known = Some(K_MUTUAL.into());
+        return Ok(());
     }
     let expected = match answer(&case.prog, &case.edb) {
         Ok(a) => a,
@@ -65,10 +88,107 @@ pub fn check_engine(case: &Case, obs: &mut Obs) -> CheckResult {
                 extra
             ),
         );
-        if let Some(k) = classify(&f, kind) {
+        if let Some(k) = classify(case, &f, kind, &expected) {
             fail = fail.known(k);
         }
         return Err(fail);
+    }
+    Ok(())
+}
+
+/// Engine answers through the other two entry points: persistent rules + facts in a StorageEngine
+/// KG queried with `execute_query_with_rules_tuples_on`, and the same through `Handler::query_program`.
+fn storage_paths(case: &Case) -> Result<(Vec<inputlayer::value::Tuple>, Vec<inputlayer::value::Tuple>), String> {
+    use crate::common::store::*;
+    let sc = Scratch::new("c01");
+    let handler = open_handler(&sc.path, |_| {})?;
+    {
+        let st = handler.get_storage();
+        for (rel, rows) in &case.edb {
+            if rows.is_empty() {
+                continue;
+            }
+            st.insert_tuples_into(KG, rel, rows.iter().map(|r| itup(r)).collect()).map_err(|e| format!("insert: {e}"))?;
+        }
+        let n = case.prog.clauses.len();
+        for c in &case.prog.clauses[..n - 1] {
+            let def = inputlayer::statement::parse_rule_definition(&c.text()).map_err(|e| format!("REJECT parse_rule_definition: {e}"))?;
+            st.register_rule_in(KG, &def).map_err(|e| format!("REJECT register_rule: {e}"))?;
+        }
+    }
+    let q = case.prog.query();
+    let (r1, fired) = eng::with_watchdog(20, || handler.get_storage().execute_query_with_rules_tuples_on(KG, &q.text()));
+    if fired {
+        return Err("REJECT watchdog".into());
+    }
+    let r1 = r1.map_err(|e| format!("REJECT storage query: {e}"))?;
+    // handler: `?target(args)` returns full rows of the target relation that match the constants
+    let goal = match &q.body[0] {
+        crate::common::prog::Lit::Pos(a) => a.text(),
+        _ => unreachable!(),
+    };
+    let r2 = block_on(handler.query_program(Some(KG.to_string()), format!("?{goal}"))).map_err(|e| format!("REJECT handler query: {e}"))?;
+    Ok((r1, result_tuples(&r2)))
+}
+
+pub fn check_storage(ctx: &Ctx, case: &Case, obs: &mut Obs, replaying: bool) -> CheckResult {
+    let f = features(&case.prog);
+    for c in f.classes() {
+        obs.class(c);
+    }
+    if f.mutual_recursion && !replaying && ctx.is_open_known(K_MUTUAL) {
+        obs.excluded_known = Some(K_MUTUAL.into());
+        return Ok(());
+    }
+    let model = match crate::common::prog::eval(&case.prog.clauses, &case.edb) {
+        Ok(m) => m,
+        Err(e) => {
+            obs.discard = Some(format!("reference: {e:?}"));
+            return Ok(());
+        }
+    };
+    let q = case.prog.query();
+    let expected = model.db.get(&q.head).cloned().unwrap_or_default();
+    // expected handler rows: rows of the target relation matching the goal's constants/repeats
+    let crate::common::prog::Lit::Pos(goal) = &q.body[0] else { unreachable!() };
+    let exp_handler: std::collections::BTreeSet<_> = model
+        .db
+        .get(&goal.rel)
+        .cloned()
+        .unwrap_or_default()
+        .into_iter()
+        .filter(|row| {
+            let mut env = std::collections::BTreeMap::new();
+            goal.args.iter().zip(row).all(|(t, v)| match t {
+                crate::common::prog::T::C(c) => (*c, 0) == *v,
+                crate::common::prog::T::V(x) => *env.entry(*x).or_insert(*v) == *v,
+                crate::common::prog::T::W => true,
+            })
+        })
+        .collect();
+    obs.nontrivial = !expected.is_empty() && (f.join || f.negation || f.self_recursion || f.mutual_recursion || f.aggregate);
+    let (r1, r2) = match storage_paths(case) {
+        Ok(r) => r,
+        Err(e) if e.starts_with("REJECT") => {
+            obs.discard = Some(format!("engine_error: {}", short_err(&e)));
+            return Ok(());
+        }
+        Err(e) => return Err(Fail::new("storage_setup_failed", e)),
+    };
+    for (name, got, exp) in [("storage_query", &r1, &expected), ("handler_query", &r2, &exp_handler)] {
+        let got_set = key_set(got).map_err(|e| Fail::new("non_numeric_answer", e))?;
+        if &got_set != exp {
+            let (missing, extra) = diff_sets(&got_set, exp);
+            let kind = if !extra.is_empty() { "extra_tuples" } else { "missing_tuples" };
+            let mut fail = Fail::new(
+                kind,
+                format!("[{name}] persistent rules:\n{}\nedb: {:?}\nengine returned {} rows, reference {}; missing {:?} extra {:?}", case.prog.text(), case.edb, got_set.len(), exp.len(), missing, extra),
+            );
+            if let Some(k) = classify(case, &f, kind, &expected) {
+                fail = fail.known(k);
+            }
+            return Err(fail);
+        }
     }
     Ok(())
 }
@@ -83,13 +203,16 @@ pub fn run(ctx: &Ctx) {
     );
     ctx.assume("reference evaluator R1 (harness/src/common/prog.rs) is correct for the generated fragment");
     ctx.assume("programs the engine rejects with Err are discarded (counted per message), not judged");
-    let n = ctx.cases(1500, 40_000);
-    ctx.run_part_with("iql_engine", n, || case_strategy(GenOpts::default()), check_engine, Some(&crate::common::gen::shrink_case));
+    let n = ctx.cases(20_000, 600_000);
+    ctx.run_part_with("iql_engine", n, || case_strategy(GenOpts::default()), |c, o| check_engine(ctx, c, o, false), Some(&crate::common::gen::shrink_case));
+    let n2 = ctx.cases(1500, 40_000);
+    ctx.run_part_with("storage_and_handler", n2, || case_strategy(GenOpts::default()), |c, o| check_storage(ctx, c, o, false), Some(&crate::common::gen::shrink_case));
 }
 
 pub fn replay(ctx: &Ctx, part: &str, case: &J) -> Option<Result<CheckResult, String>> {
     Some(match part {
-        "iql_engine" => ctx.replay_case(part, case, check_engine),
+        "iql_engine" => ctx.replay_case(part, case, |c: &Case, o: &mut Obs| check_engine(ctx, c, o, true)),
+        "storage_and_handler" => ctx.replay_case(part, case, |c: &Case, o: &mut Obs| check_storage(ctx, c, o, true)),
         _ => return None,
     })
 }
